@@ -212,6 +212,8 @@ pub fn workload(rng: &mut Rng, tier: Tier) -> Workload {
         formats_have_path: true,
         rich_formats: rng.chance(1, 3),
         likely_true: *rng.pick(&[4, 4, 3, 3, 2]),
+        unsupported: 0,
+        placeholder_strings: false,
     };
     let expr = gen::expression(rng, &cfg);
     let n_files = rng.range(1, 8) as usize;
